@@ -1,6 +1,7 @@
 /- line-protocol engine `int`: LazyBigint operations and the integer builtins (C14) -/
 import XrayModel.LazyInt
 import XrayModel.IntBuiltins
+import XrayModel.IntText
 open XrayModel
 namespace XrayDriver
 
@@ -25,7 +26,70 @@ def showOrd : Ordering → String
 def showOpt : Option Int → String
   | some v => s!"Some({v})" | none => "None"
 
+/-- strings travel as `s:` followed by decimal code points joined by `.` (`s:` = empty) -/
+def decodeStr (a : String) : Option (List Char) :=
+  if a.startsWith "s:" then
+    let body := (a.drop 2).toString
+    if body.isEmpty then some []
+    else (body.splitOn ".").mapM (fun t => t.toNat?.map Char.ofNat)
+  else none
+
+def encodeStr (cs : List Char) : String :=
+  "str:" ++ String.intercalate "." (cs.map (fun c => toString c.toNat))
+
+def showXS : XS → String
+  | .str s => encodeStr s
+  | .int v => showLB v
+  | .err m => "err " ++ m
+  | .panic w => w
+
+def optChar (a : String) : Option (Option Char) :=
+  if a == "-" then some none else a.toNat?.map (fun n => some (Char.ofNat n))
+
+def parseSpec (args : List String) : Option IntB.FmtSpec :=
+  match args with
+  | [fill, align, sign, alt, zero, width, grouping, precision, ty] => do
+    let fill ← optChar fill
+    let align ← (match align with
+      | "-" => some none | "<" => some (some IntB.Align.left) | ">" => some (some IntB.Align.right)
+      | "^" => some (some IntB.Align.center) | "=" => some (some IntB.Align.rightWithSign) | _ => none)
+    let sign ← (match sign with
+      | "n" => some none | "+" => some (some IntB.SignMode.positive) | "-" => some (some IntB.SignMode.negative)
+      | "s" => some (some IntB.SignMode.whitespace) | _ => none)
+    let width ← (if width == "-" then some none else width.toNat?.map some)
+    let grouping ← optChar grouping
+    let ty ← optChar ty
+    some { fill := fill, align := align, sign := sign, alt := alt == "1", zeroPad := zero == "1",
+           width := width, grouping := grouping, precision := precision == "1", ty := ty }
+  | _ => none
+
+/-- the text operations (string arguments) -/
+def intTextEngine (f : String) (args : List String) : Option String :=
+  match f, args with
+  | "to_string", [a] => a.toInt?.map (fun v => encodeStr (LB.toStr (LB.ofInt v)))
+  | "magnitude_to_str", [a, r] => do
+    let v ← a.toInt?
+    let r ← r.toNat?
+    some (match LB.magnitudeToStr (LB.ofInt v) r with | .ok s => encodeStr s | .error e => e)
+  | "from_str_radix", [s, r] => do
+    let s ← decodeStr s
+    let r ← r.toNat?
+    some (match LB.fromStrRadix s r with | some v => showLB v | none => "none")
+  | "b.to_str", [a] => a.toInt?.map (fun v => showXS (IntB.toStr (LB.ofInt v)))
+  | "b.to_int", [s, b] => do
+    let s ← decodeStr s
+    let b ← b.toInt?
+    some (showXS (IntB.toInt s (LB.ofInt b)))
+  | "b.format", a :: spec => do
+    let v ← a.toInt?
+    let sp ← parseSpec spec
+    some (showXS (IntB.format (LB.ofInt v) sp))
+  | _, _ => none
+
 def intEngine (f : String) (args : List String) : String :=
+  match intTextEngine f args with
+  | some r => r
+  | none =>
   match args.mapM String.toInt? with
   | none => "bad-op"
   | some vs =>
